@@ -73,7 +73,46 @@ _STR_METHODS = {"isdigit", "strip", "lstrip", "rstrip", "lower", "upper", "start
 _PURE_BUILTINS = {"len": len, "abs": abs, "max": max, "min": min, "round": round, "sorted": sorted,
                   "any": any, "all": all, "sum": sum, "range": range, "enumerate": enumerate, "zip": zip,
                   "list": list, "tuple": tuple, "set": set, "frozenset": frozenset, "dict": dict,
-                  "int": int, "float": float, "str": str, "bool": bool, "repr": repr, "reversed": reversed}
+                  "int": int, "float": float, "str": str, "bool": bool, "repr": repr, "reversed": reversed,
+                  "type": type, "hasattr": None, "id": id}
+
+
+class Synth:
+    """base of objects fabricated by the checker to stand for repository dataclass instances"""
+
+
+class Env(dict):
+    """local scope with a lexical parent (closures) and nonlocal forwarding"""
+
+    def __init__(self, parent=None):
+        super().__init__()
+        self.parent = parent
+        self.nonlocals = set()
+
+    def __contains__(self, k):
+        return dict.__contains__(self, k) or (self.parent is not None and k in self.parent)
+
+    def __getitem__(self, k):
+        if dict.__contains__(self, k):
+            return dict.__getitem__(self, k)
+        if self.parent is not None:
+            return self.parent[k]
+        raise KeyError(k)
+
+    def get(self, k, d=None):
+        return self[k] if k in self else d
+
+    def __setitem__(self, k, v):
+        if k in self.nonlocals and self.parent is not None:
+            self.parent[k] = v
+        else:
+            dict.__setitem__(self, k, v)
+
+
+class Closure:
+    def __init__(self, fn, env):
+        self.fn = fn
+        self.env = env
 
 
 class Interp:
@@ -84,6 +123,20 @@ class Interp:
         self.max_steps = max_steps
         self.depth = 0
         self.opaque = opaque or {}  # name -> python callable modelling an *external* pure function
+        self.cov = set()            # (lineno, col, truth) of every If/IfExp/While test evaluated
+
+    _SYNTH = {}
+
+    def _synth_class(self, name):
+        """a stand-in for a module-level class whose bases are builtins (marker subclasses such as _ExprStr(str))"""
+        key = (self.mod.rel, name)
+        if key not in Interp._SYNTH:
+            c = self.mod.classes[name]
+            bases = tuple(_TYPES.get(lit_name(b), object) for b in c.bases) or (object,)
+            if any(isinstance(st, ast.FunctionDef) for st in c.body):
+                raise Unsupported(f"class {name} has methods")
+            Interp._SYNTH[key] = type(name, bases, {})
+        return Interp._SYNTH[key]
 
     # -- public ------------------------------------------------------------------------------
     def call(self, fn: ast.FunctionDef, args: List[Any], kwargs: Optional[Dict[str, Any]] = None) -> Outcome:
@@ -98,12 +151,15 @@ class Interp:
         if self.steps > self.max_steps:
             raise Unsupported("step budget exhausted (unbounded loop?)")
 
-    def _call(self, fn, args, kwargs):
+    def _call(self, fn, args, kwargs, parent_env=None):
         self.depth += 1
-        if self.depth > 30:
+        if self.depth > 60:
             raise Unsupported("recursion too deep")
         try:
-            env = self._bind(fn, args, kwargs)
+            bound = self._bind(fn, args, kwargs)
+            env = Env(parent_env)
+            for k, v in bound.items():
+                dict.__setitem__(env, k, v)
             try:
                 self._block(fn.body, env)
             except _Return as r:
@@ -168,7 +224,9 @@ class Interp:
             self._assign(st.target, v, env)
             return
         if isinstance(st, ast.If):
-            if self._truth(self.expr(st.test, env)):
+            t = self._truth(self.expr(st.test, env))
+            self.cov.add((st.lineno, st.col_offset, t))
+            if t:
                 self._block(st.body, env)
             else:
                 self._block(st.orelse, env)
@@ -238,8 +296,14 @@ class Interp:
                     self._block(st.finalbody, env)
             return
         if isinstance(st, (ast.FunctionDef,)):
-            env[st.name] = st
+            env[st.name] = Closure(st, env)
             return
+        if isinstance(st, ast.Nonlocal):
+            if isinstance(env, Env):
+                env.nonlocals.update(st.names)
+            return
+        if isinstance(st, ast.Global):
+            raise Unsupported("global statement")
         raise Unsupported(f"statement {type(st).__name__}")
 
     @staticmethod
@@ -314,17 +378,27 @@ class Interp:
             if n.id in self.extra:
                 return self.extra[n.id]
             if n.id in self.mod.consts:
+                ck = (self.mod.rel, self.mod.sha, n.id)
+                if ck in _CONST_CACHE:
+                    v = _CONST_CACHE[ck]
+                    return type(v)(v) if isinstance(v, (dict, list, set)) else v
                 try:
-                    return lit.ev(self.mod.consts[n.id], self.mod)
+                    v = _real(lit.ev(self.mod.consts[n.id], self.mod))
+                    _CONST_CACHE[ck] = v
+                    return type(v)(v) if isinstance(v, (dict, list, set)) else v
                 except lit.NotLiteral:
                     # module-level dict comprehension etc.: evaluate with the interpreter itself
-                    return self.expr(self.mod.consts[n.id], {})
+                    v = self.expr(self.mod.consts[n.id], {})
+                    _CONST_CACHE[ck] = v
+                    return type(v)(v) if isinstance(v, (dict, list, set)) else v
             if n.id in self.mod.funcs:
                 return self.mod.funcs[n.id]
             if n.id in _TYPES:
                 return _TYPES[n.id]
             if n.id in _PURE_BUILTINS:
                 return _PURE_BUILTINS[n.id]
+            if n.id in self.mod.classes:
+                return self._synth_class(n.id)
             if n.id == "ast":
                 return ast  # the stdlib module: only its node classes are consulted (isinstance tests)
             if n.id in ("True", "False", "None"):
@@ -400,7 +474,9 @@ class Interp:
                 left = right
             return True
         if isinstance(n, ast.IfExp):
-            return self.expr(n.body if self._truth(self.expr(n.test, env)) else n.orelse, env)
+            t = self._truth(self.expr(n.test, env))
+            self.cov.add((n.lineno, n.col_offset, t))
+            return self.expr(n.body if t else n.orelse, env)
         if isinstance(n, ast.Subscript):
             c = self.expr(n.value, env)
             if isinstance(n.slice, ast.Slice):
@@ -423,6 +499,14 @@ class Interp:
             base = self.expr(n.value, env)
             if isinstance(base, dict) and n.attr in base and base.get("__obj__"):
                 return base[n.attr]
+            if isinstance(base, type) and n.attr == "__name__":
+                return base.__name__
+            if isinstance(base, Synth):
+                if n.attr == "__dict__":
+                    return dict(vars(base))
+                if hasattr(base, n.attr):
+                    return getattr(base, n.attr)
+                raise Raised("AttributeError", n.attr, n)
             if base is ast and isinstance(getattr(ast, n.attr, None), type):
                 return getattr(ast, n.attr)
             if isinstance(base, ast.AST) and n.attr in base._fields:
@@ -432,7 +516,19 @@ class Interp:
         if isinstance(n, ast.Call):
             return self._callexpr(n, env)
         if isinstance(n, ast.Lambda):
-            raise Unsupported("lambda")
+            if n.args.vararg or n.args.kwarg or n.args.kwonlyargs or n.args.defaults:
+                raise Unsupported("lambda with complex signature")
+            names = [a.arg for a in n.args.args]
+            interp = self
+
+            def _lam(*args, _names=names, _body=n.body, _env=env):
+                e2 = Env(_env)
+                for k, v in zip(_names, args):
+                    dict.__setitem__(e2, k, v)
+                return interp.expr(_body, e2)
+
+            _lam._dl_lambda = True
+            return _lam
         raise Unsupported(f"expression {type(n).__name__}")
 
     @staticmethod
@@ -454,12 +550,12 @@ class Interp:
             g = n.generators[gi]
             for item in list(self.expr(g.iter, e)):
                 self._tick()
-                e2 = dict(e)
+                e2 = Env(e)
                 self._assign(g.target, item, e2)
                 if all(self._truth(self.expr(c, e2)) for c in g.ifs):
                     rec(gi + 1, e2)
 
-        rec(0, dict(env))
+        rec(0, env)
         if isinstance(n, ast.ListComp):
             return results
         if isinstance(n, ast.SetComp):
@@ -494,7 +590,7 @@ class Interp:
                 except (ValueError, TypeError) as e:
                     raise Raised(type(e).__name__, "", n)
             if isinstance(base, dict) and m in ("get", "items", "values", "keys", "setdefault", "pop", "copy", "update"):
-                r = getattr(base, m)(*[self._hashable(a) for a in args])
+                r = getattr(base, m)(*([self._hashable(args[0])] + list(args[1:]) if args and m != "update" else args))
                 return list(r) if m in ("items", "values", "keys") else r
             if isinstance(base, list) and m in ("append", "extend", "index", "count", "copy", "insert", "pop", "remove"):
                 try:
@@ -505,6 +601,17 @@ class Interp:
                 return getattr(base, m)(*args)
             if isinstance(base, tuple) and m in ("index", "count"):
                 return getattr(base, m)(*args)
+            import re as _re
+            if isinstance(base, lit.Regex) and m in ("sub", "match", "fullmatch", "search", "findall", "finditer", "split", "subn"):
+                flags = 0
+                for fl in ("IGNORECASE", "MULTILINE", "DOTALL", "VERBOSE"):
+                    if fl in (base.flags_src or ""):
+                        flags |= getattr(_re, fl)
+                rx = _re.compile(base.pattern, flags)
+                r = getattr(rx, m)(*args)
+                return list(r) if m == "finditer" else r
+            if isinstance(base, _re.Match) and m in ("group", "groups", "start", "end", "span"):
+                return getattr(base, m)(*args)
             if base is dict and m == "fromkeys":
                 return dict.fromkeys(*args)
             raise Unsupported(f"method {m} on {type(base).__name__}")
@@ -512,15 +619,31 @@ class Interp:
             name = f.id
             if name in self.opaque and name not in env:
                 return self.opaque[name](*args, **kwargs)
+            if name == "getattr" and len(args) in (2, 3) and isinstance(args[1], str) and not args[1].startswith("__"):
+                if isinstance(args[0], Synth):
+                    if hasattr(args[0], args[1]):
+                        return getattr(args[0], args[1])
+                    if len(args) == 3:
+                        return args[2]
+                    raise Raised("AttributeError", args[1], n)
+                raise Unsupported("getattr on non-IR value")
+            if name == "hasattr" and len(args) == 2 and isinstance(args[1], str):
+                return hasattr(args[0], args[1]) if isinstance(args[0], (Synth, str, int, float, list, dict, tuple, set)) else False
             if name == "isinstance":
                 v, t = args
                 ts = t if isinstance(t, tuple) else (t,)
                 if not all(isinstance(x, type) for x in ts):
                     raise Unsupported("isinstance with non-type")
+                if any(isinstance(x, ast.AST) for x in ts):
+                    raise Unsupported("isinstance with AST value")
                 return isinstance(v, tuple(ts))
             target = env.get(name)
             if target is None and name in self.mod.funcs and name not in env:
                 target = self.mod.funcs[name]
+            if isinstance(target, Closure):
+                return self._call(target.fn, args, kwargs, target.env)
+            if callable(target) and getattr(target, "_dl_lambda", False):
+                return target(*args)
             if isinstance(target, (ast.FunctionDef,)):
                 return self._call(target, args, kwargs)
             if name in _TYPES and name not in env:
@@ -538,8 +661,34 @@ class Interp:
                 return r
             if name in _EXC:
                 return Raised(name, "", n)
+            if name in self.mod.classes and name not in env:
+                try:
+                    return self._synth_class(name)(*args, **kwargs)
+                except TypeError:
+                    raise Raised("TypeError", "", n)
+            if name in self.extra and isinstance(self.extra[name], type):
+                try:
+                    return self.extra[name](*args, **kwargs)
+                except TypeError:
+                    raise Raised("TypeError", "", n)
             raise Unsupported(f"call to {name}")
         raise Unsupported("call form")
+
+
+_CONST_CACHE = {}
+
+
+def _real(v):
+    """literal-table values as the evaluator sees them: ast.X keys become the stdlib node classes"""
+    if isinstance(v, lit.AstKey):
+        return getattr(ast, v.name)
+    if isinstance(v, dict):
+        return {_real(k): _real(x) for k, x in v.items()}
+    if isinstance(v, (list, tuple)):
+        return type(v)(_real(x) for x in v)
+    if isinstance(v, (set, frozenset)):
+        return type(v)(_real(x) for x in v)
+    return v
 
 
 def lit_name(node) -> Optional[str]:
